@@ -239,3 +239,23 @@ fix_copy_shift_one (mpz_ptr w, mpz_srcptr u, mp_size_t n)
   MPN_COPY (wp, up + 1, n);
   SIZ (w) = n;
 }
+
+/* positive: a length clamped to the allocation, then a store at that index - one limb past the block when the clamp was active */
+void
+fix_extent_clamp_store (mpz_ptr w, mp_size_t have, mp_size_t n)
+{
+  mp_ptr wp = MPZ_REALLOC (w, n);
+  mp_size_t k = MIN (have, n);
+  wp[k] = 1;
+  SIZ (w) = 1;
+}
+
+/* negative: the block is sized by the larger of two lengths (plus one) and written at the smaller */
+void
+fix_extent_max_alloc (mpz_ptr w, mp_size_t un, mp_size_t vn)
+{
+  mp_size_t wn = MAX (un, vn);
+  mp_ptr wp = MPZ_REALLOC (w, wn + 1);
+  wp[un] = 0;
+  SIZ (w) = 0;
+}
